@@ -8,6 +8,7 @@ package main
 import (
 	"context"
 	"fmt"
+	"google.golang.org/protobuf/types/known/fieldmaskpb"
 	"io"
 	"math/rand"
 	"os"
@@ -255,6 +256,33 @@ func programs() []program {
 				resource.InterceptBefore(func(old, change proto.Message) { touch(old); touch(change) }),
 				resource.InterceptAfter(func(old, new proto.Message) { touch(old); touch(new) }))
 		}, func() { v.Set(tm(10)) }, func() { touch(v.Get()) })
+	})
+	// option values supplied by the caller (a read mask object) shared between concurrent calls
+	add("value/one read mask object shared by Get||Pull+Set", func() {
+		mask := &fieldmaskpb.FieldMask{Paths: []string{"default_string", "default_int32", "default_nested_message.a", "default_nested_message"}}
+		v := resource.NewValue(resource.WithInitialValue(tm(12)))
+		ctx, cancel := context.WithCancel(bg)
+		par(func() { touch(v.Get(resource.WithReadMask(mask))); _ = len(mask.Paths) },
+			func() {
+				for e := range v.Pull(ctx, resource.WithReadMask(mask)) {
+					touch(e.Value)
+				}
+			},
+			func() { v.Set(tm(10)); cancel() })
+		cancel()
+	})
+	add("collection/one read mask object shared by List||Get", func() {
+		mask := &fieldmaskpb.FieldMask{Paths: []string{"default_string", "default_int32", "default_nested_message.a", "default_nested_message"}}
+		c := resource.NewCollection(resource.WithInitialRecord("a", tm(12)))
+		par(func() {
+			for _, m := range c.List(resource.WithReadMask(mask)) {
+				touch(m)
+			}
+		}, func() {
+			if m, ok := c.Get("a", resource.WithReadMask(mask)); ok {
+				touch(m)
+			}
+		})
 	})
 	add("collection/Pull+consume||Update||Upsert", func() {
 		c := resource.NewCollection(resource.WithInitialRecord("a", tm(12)))
